@@ -25,7 +25,7 @@ class C15(PropBase):
 
     def generate(self, seed, tier, idx):
         rng = Rng(seed)
-        proj = gen.gen_project(rng, n_units=rng.randint(1, 7), inline=0.3, weird_names=0.04, big=0.03, same_basename=0.08, max_atoms=4)
+        proj = gen.gen_project(rng, n_units=rng.randint(1, 7), inline=0.3, weird_names=0.04, big=0.03, same_basename=0.08, max_atoms=4, utf8=0.15)
         opts = {"--enable": rng.choice(["--enable=style,warning,performance,portability", "--enable=all", "--enable=style,information",
                                         "--enable=warning,information", "--enable=information", ""])}
         if not opts["--enable"]:
@@ -44,7 +44,7 @@ class C15(PropBase):
             subs.append(r)
         scn = {"tree": proj["tree"], "units": proj["units"], "langs": proj["langs"], "opts": opts,
                "suppr": gen_cmdline_suppressions(rng, proj["units"]), "bd": rng.chance(0.5),
-               "exitcode": rng.choice([None, 1, 37]), "subjects": subs}
+               "exitcode": rng.choice([None, 1, 37]), "subjects": subs, "channel": "text" if rng.chance(0.3) else "xml"}
         if any(s.get("loadavg") for s in subs):
             scn["opts"]["-l"] = "-l 1"
         return scn
